@@ -78,6 +78,9 @@ use pest_meta::{
 };
 use pest_vm::Vm;
 
+#[cfg(pest_parser_pest_verif)]
+pub mod verif;
+
 /// Possible errors that can occur in the debugger context.
 #[derive(Debug, thiserror::Error)]
 pub enum DebuggerError {
@@ -249,9 +252,14 @@ impl DebuggerContext {
             let vm = Vm::new_with_listener(
                 ast,
                 Box::new(move |rule, pos| {
+                    #[cfg(pest_parser_pest_verif)]
+                    crate::verif::point("LoadDone");
                     if is_done_signal.load(Ordering::SeqCst) {
                         return true;
                     }
+
+                    #[cfg(pest_parser_pest_verif)]
+                    crate::verif::point("Lookup");
 
                     let contains_rule = {
                         let lock = breakpoints.lock().expect(POISONED_LOCK_PANIC);
@@ -259,16 +267,22 @@ impl DebuggerContext {
                     };
 
                     if contains_rule {
+                        #[cfg(pest_parser_pest_verif)]
+                        crate::verif::point("Send");
                         rsender
                             .send(DebuggerEvent::Breakpoint(rule, pos.pos()))
                             .expect(CHANNEL_CLOSED_PANIC);
 
+                        #[cfg(pest_parser_pest_verif)]
+                        crate::verif::point("Park");
                         thread::park();
                     }
                     false
                 }),
             );
 
+            #[cfg(pest_parser_pest_verif)]
+            let sender = crate::verif::GatedSender::new(sender, "FinSend");
             match vm.parse(&rule, &input) {
                 Ok(_) => sender.send(DebuggerEvent::Eof).expect(CHANNEL_CLOSED_PANIC),
                 Err(error) => sender
@@ -276,7 +290,11 @@ impl DebuggerContext {
                     .expect(CHANNEL_CLOSED_PANIC),
             };
 
+            #[cfg(pest_parser_pest_verif)]
+            crate::verif::point("FinStore");
             is_done.store(true, Ordering::SeqCst);
+            #[cfg(pest_parser_pest_verif)]
+            crate::verif::point("Exit");
         })
     }
 
@@ -305,15 +323,25 @@ impl DebuggerContext {
     /// This naturally returns errors if the grammar or input haven't been loaded yet etc.
     pub fn run(&mut self, rule: &str, sender: Sender<DebuggerEvent>) -> Result<(), DebuggerError> {
         if let Some(handle) = self.handle.take() {
+            #[cfg(pest_parser_pest_verif)]
+            crate::verif::point("RunLoad");
             if !(self.is_done.load(Ordering::Relaxed)) {
+                #[cfg(pest_parser_pest_verif)]
+                crate::verif::point("RunStore");
                 self.is_done.store(true, Ordering::SeqCst);
+                #[cfg(pest_parser_pest_verif)]
+                crate::verif::point("RunUnpark");
                 handle.thread().unpark();
             }
+            #[cfg(pest_parser_pest_verif)]
+            crate::verif::point("RunJoin");
             handle
                 .join()
                 .map_err(|e| DebuggerError::PreviousRunPanic(format!("{e:?}")))?;
         }
 
+        #[cfg(pest_parser_pest_verif)]
+        crate::verif::point("RunReset");
         self.is_done.store(false, Ordering::SeqCst);
         let ast = self
             .grammar
@@ -324,6 +352,8 @@ impl DebuggerContext {
                 let rule = rule.to_owned();
                 let input = input.clone();
 
+                #[cfg(pest_parser_pest_verif)]
+                crate::verif::point("Spawn");
                 self.handle = Some(self.handle(ast.clone(), rule, input, sender));
                 Ok(())
             }
@@ -334,12 +364,16 @@ impl DebuggerContext {
     /// Continue the debugger session from the breakpoint.
     /// It returns an error if the session finished or wasn't started yet.
     pub fn cont(&self) -> Result<(), DebuggerError> {
+        #[cfg(pest_parser_pest_verif)]
+        crate::verif::point("ContLoad");
         if self.is_done.load(Ordering::SeqCst) {
             return Err(DebuggerError::EofReached);
         }
 
         match self.handle {
             Some(ref handle) => {
+                #[cfg(pest_parser_pest_verif)]
+                crate::verif::point("ContUnpark");
                 handle.thread().unpark();
                 Ok(())
             }
